@@ -503,7 +503,7 @@ pub fn corrupt(data: &mut Vec<u8>, rng: &mut Rng, st: &mut Vec<String>) {
 // ------------------------------------------------------------------------------------------------
 // Deep / wide adversarial peers
 
-pub const N_DEEP_KINDS: usize = 11;
+pub const N_DEEP_KINDS: usize = 16;
 
 pub fn deep_doc(kind: usize, depth: usize) -> String {
     match kind % N_DEEP_KINDS {
@@ -556,7 +556,48 @@ pub fn deep_doc(kind: usize, depth: usize) -> String {
             s.push_str(&"]".repeat(depth));
             s
         }
-        _ => {
+        11 => {
+            // block-style nested mappings (the parser refuses flow nesting beyond 256 levels, so only
+            // block style reaches the depth limit of the budget); size grows with depth^2
+            let d = depth.min(2100);
+            let mut s = String::new();
+            for i in 0..d {
+                s.push_str(&" ".repeat(i));
+                s.push_str("k:\n");
+            }
+            s.push_str(&" ".repeat(d));
+            s.push_str("v: 1\n");
+            s
+        }
+        12 => {
+            // the same as the value of a merge key: merged nodes are captured recursively
+            let d = depth.min(2100);
+            let mut s = String::from("top:\n  <<:\n");
+            for i in 0..d {
+                s.push_str(&" ".repeat(i + 4));
+                s.push_str("k:\n");
+            }
+            s.push_str(&" ".repeat(d + 4));
+            s.push_str("v: 1\n  other: 2\n");
+            s
+        }
+        13 => {
+            // deep block sequence as a complex mapping key (keys are captured recursively)
+            format!("? {}x\n: v\n", "- ".repeat(depth.min(40_000)))
+        }
+        14 => {
+            // deep block mapping under a sequence of merge sources
+            let d = depth.min(2100);
+            let mut s = String::from("base: &b\n");
+            for i in 0..d {
+                s.push_str(&" ".repeat(i + 2));
+                s.push_str("k:\n");
+            }
+            s.push_str(&" ".repeat(d + 2));
+            s.push_str("v: 1\nuse:\n  <<: [*b]\n  w: 2\n");
+            s
+        }
+        10 | 15 => {
             // a failing first document whose skipped remainder defines many anchors, then a document
             // that defines and uses one more
             let mut s = String::from("- [not, an, int]\n");
@@ -566,6 +607,7 @@ pub fn deep_doc(kind: usize, depth: usize) -> String {
             s.push_str("---\n- &late 5\n- *late\n---\n- &later [6]\n- *later\n");
             s
         }
+        _ => String::new(),
     }
 }
 
@@ -614,6 +656,8 @@ pub fn gen_case(tier: Tier, seed: u64, idx: u64) -> Case {
         let depth = DEPTHS[(i / N_DEEP_KINDS) % DEPTHS.len()];
         let target = [T01::Fam(Target::Json), T01::DeepSeq, T01::DeepEnum, T01::DeepMap, T01::Fam(Target::VecI)]
             [(i / (N_DEEP_KINDS * DEPTHS.len())) % 5];
+        // quadratic-size shapes only up to the region around the depth limit
+        let depth = if matches!(kind, 11 | 12 | 14) { depth.min(2100) } else { depth };
         return Case::C01(TotalCase {
             bytes: Doc::from_str(&deep_doc(kind, depth)),
             target,
